@@ -42,7 +42,7 @@ theorem leaveRoom_sess (a : Acc) (s : Nat) {orph : List Nat} (hi : InvX orph a.h
 
 theorem InvG.mono {orph : List Nat} {h : Hub} (hi : InvX orph h) (v : Nat)
     (hv : ∀ y, h.sess v = some y → y.kind = .virtual) : InvX (v :: orph) h := by
-  obtain ⟨f1, f2, f3, f4, f5, f6, f7, f8, f9, f10, f11, f12, f13, f14, f15, f16, f17, f18, f19, f20, f21, f22, f23, f24⟩ := hi
+  obtain ⟨f1, f2, f3, f4, f5, f6, f7, f8, f9, f10, f11, f12, f13, f14, f15, f16, f17, f18, f19, f20, f21, f22, f23, f24, f25⟩ := hi
   constructor
   all_goals first | assumption | skip
   · intro w x hx hk; have := f13 w x hx hk; grind
@@ -54,7 +54,7 @@ theorem facts_vtable : Generated.Hub.vtableClearedOnClose = true := by decide
 /-- Shrinking the orphan list by a session that is gone. -/
 theorem InvG.shrink_dead {orph : List Nat} {h : Hub} (hi : InvX orph h) (v : Nat) (hv : h.sess v = none) :
     InvX (removeL orph v) h := by
-  obtain ⟨f1, f2, f3, f4, f5, f6, f7, f8, f9, f10, f11, f12, f13, f14, f15, f16, f17, f18, f19, f20, f21, f22, f23, f24⟩ := hi
+  obtain ⟨f1, f2, f3, f4, f5, f6, f7, f8, f9, f10, f11, f12, f13, f14, f15, f16, f17, f18, f19, f20, f21, f22, f23, f24, f25⟩ := hi
   constructor
   all_goals first | assumption | skip
   · intro w x hx hk; have := f13 w x hx hk; grind [mem_removeL]
@@ -70,10 +70,10 @@ theorem dropChild_inv {orph : List Nat} {h : Hub} (hi : InvX orph h) {v : Nat} {
   | none => exact hm
   | some p =>
     simp only []
-    obtain ⟨f1, f2, f3, f4, f5, f6, f7, f8, f9, f10, f11, f12, f13, f14, f15, f16, f17, f18, f19, f20, f21, f22, f23, f24⟩ := hm
+    obtain ⟨f1, f2, f3, f4, f5, f6, f7, f8, f9, f10, f11, f12, f13, f14, f15, f16, f17, f18, f19, f20, f21, f22, f23, f24, f25⟩ := hm
     have hne : x.parent ≠ v := (f13 v x hx hk).2.2.1
     constructor
-    all_goals (intros; simp only [hubf] at *; grind [mem_removeL, removeL_nil])
+    all_goals (intros; simp only [hubf] at *; grind [mem_removeL, removeL_nil, length_removeL_le])
 
 /-- Last step of closing a virtual session that has left its room and that nobody lists as child. -/
 theorem dropVirtual_inv {orph : List Nat} {h : Hub} {v : Nat} (hi : InvX (v :: orph) h) {x y : Sess}
@@ -83,9 +83,9 @@ theorem dropVirtual_inv {orph : List Nat} {h : Hub} {v : Nat} (hi : InvX (v :: o
     InvX (removeL orph v) (dropVirtual h v x) := by
   unfold dropVirtual
   simp only [facts_vtable, if_true]
-  obtain ⟨f1, f2, f3, f4, f5, f6, f7, f8, f9, f10, f11, f12, f13, f14, f15, f16, f17, f18, f19, f20, f21, f22, f23, f24⟩ := hi
+  obtain ⟨f1, f2, f3, f4, f5, f6, f7, f8, f9, f10, f11, f12, f13, f14, f15, f16, f17, f18, f19, f20, f21, f22, f23, f24, f25⟩ := hi
   constructor
-  all_goals (intros; simp only [hubf] at *; grind [mem_removeL])
+  all_goals (intros; simp only [hubf] at *; grind [mem_removeL, length_removeL_le])
 
 end SigModel.Hub
 
@@ -159,7 +159,7 @@ set_option maxHeartbeats 2000000 in
 theorem dropClient_inv {h : Hub} (hi : Inv h) {s : Nat} {x : Sess} (hx : h.sess s = some x)
     (hk : x.kind ≠ .virtual) (hr : x.room = none) : InvX x.children (dropClient h s x) := by
   unfold dropClient
-  obtain ⟨f1, f2, f3, f4, f5, f6, f7, f8, f9, f10, f11, f12, f13, f14, f15, f16, f17, f18, f19, f20, f21, f22, f23, f24⟩ := hi
+  obtain ⟨f1, f2, f3, f4, f5, f6, f7, f8, f9, f10, f11, f12, f13, f14, f15, f16, f17, f18, f19, f20, f21, f22, f23, f24, f25⟩ := hi
   have hch : ∀ v, v ∈ x.children → ∃ vx, h.sess v = some vx ∧ vx.kind = .virtual ∧ vx.parent = s :=
     fun v hv => f14 s x v hx hv
   have hcu : ∀ c s1 s2 x1 x2, h.sess s1 = some x1 → x1.conn = some c → h.sess s2 = some x2 → x2.conn = some c → s1 = s2 := by
@@ -169,7 +169,7 @@ theorem dropClient_inv {h : Hub} (hi : Inv h) {s : Nat} {x : Sess} (hx : h.sess 
     rw [a1] at a2; cases a2; rfl
   by_cases hu : x.user = "" <;> cases hc : x.conn <;>
     simp only [hu, ne_eq, not_true_eq_false, not_false_eq_true, if_true, if_false] <;> constructor
-  all_goals (intros; simp only [hubf] at *; grind [mem_removeL, nodup_removeL])
+  all_goals (intros; simp only [hubf] at *; grind [mem_removeL, nodup_removeL, length_removeL_le])
 
 end SigModel.Hub
 
@@ -274,9 +274,9 @@ theorem closeSession_inv (a : Acc) (s : Nat) (hi : Inv a.h) : Inv (closeSession 
 
 theorem closeConn_inv {h : Hub} (hi : Inv h) (c : Nat) (hc : ∀ s x, h.sess s = some x → x.conn ≠ some c) :
     Inv (closeConn h c) := by
-  obtain ⟨f1, f2, f3, f4, f5, f6, f7, f8, f9, f10, f11, f12, f13, f14, f15, f16, f17, f18, f19, f20, f21, f22, f23, f24⟩ := hi
+  obtain ⟨f1, f2, f3, f4, f5, f6, f7, f8, f9, f10, f11, f12, f13, f14, f15, f16, f17, f18, f19, f20, f21, f22, f23, f24, f25⟩ := hi
   constructor
-  all_goals (intros; simp only [hubf] at *; grind [mem_removeL])
+  all_goals (intros; simp only [hubf] at *; grind [mem_removeL, length_removeL_le])
 
 end SigModel.Hub
 
